@@ -9,7 +9,8 @@ static int thorough;
 
 static const int VARIANTS[4] = { sodium_base64_VARIANT_ORIGINAL, sodium_base64_VARIANT_ORIGINAL_NO_PADDING,
                                  sodium_base64_VARIANT_URLSAFE, sodium_base64_VARIANT_URLSAFE_NO_PADDING };
-static const char *IGN[4] = { NULL, "", " \n", ":" };
+#define NIGN 6
+static const char *IGN[NIGN] = { NULL, "", " \n", ":", "\xe9", ":\xa0\xe9" };      /* incl. ignore sets holding bytes >= 0x80 (Latin-1 / UTF-8 spacing) */
 static const char STD[] = "ABCDEFGHIJKLMNOPQRSTUVWXYZabcdefghijklmnopqrstuvwxyz0123456789+/";
 static const char URL[] = "ABCDEFGHIJKLMNOPQRSTUVWXYZabcdefghijklmnopqrstuvwxyz0123456789-_";
 
@@ -135,7 +136,7 @@ static void dec_case(int which /* 0..3 = b64 variant index, 4 = hex */, const un
 static void all_combos(int which, const unsigned char *text, size_t len, int full)
 {
     int ig, e; size_t cap, maxcap = which < 4 ? (len * 3) / 4 + 1 : len / 2 + 1;
-    for (ig = 0; ig < 4; ig++) for (e = 0; e < 2; e++) {
+    for (ig = 0; ig < NIGN; ig++) for (e = 0; e < 2; e++) {
         if (full) { for (cap = 0; cap <= maxcap; cap++) dec_case(which, text, len, ig, cap, e); }
         else { dec_case(which, text, len, ig, maxcap, e); dec_case(which, text, len, ig, maxcap > 1 ? maxcap - 2 : 0, e); }
     }
@@ -229,7 +230,7 @@ static void mutate_and_decode(int which, const unsigned char *text, size_t tl, s
 {
     unsigned char m[220]; size_t p; int k, ig, e;
     size_t caps[4] = { binlen, binlen ? binlen - 1 : 0, binlen + 1, 0 }; int ci, nc = thorough ? 4 : 2;
-#define RUN(T, L) for (ig = 0; ig < 4; ig++) if (thorough || ig != 1) for (e = 0; e < 2; e++) for (ci = 0; ci < nc; ci++) dec_case(which, T, L, ig, caps[ci], e)
+#define RUN(T, L) for (ig = 0; ig < NIGN; ig++) if (thorough || ig != 1) for (e = 0; e < 2; e++) for (ci = 0; ci < nc; ci++) dec_case(which, T, L, ig, caps[ci], e)
     RUN(text, tl);
     for (p = 0; p <= tl; p++) {
         for (k = 0; k < 14; k++) {                 /* insertion */
@@ -252,7 +253,7 @@ static void field_with_tail(int which, const unsigned char *text, size_t tl, siz
     for (s = 0; s < 5; s++) for (kind = 0; kind < 3; kind++) for (k = 0; k <= 24; k += (thorough || k < 10 ? 1 : 7)) {
         int i; memcpy(m, text, tl); m[tl] = STOP[s];
         for (i = 0; i < k; i++) m[tl + 1 + i] = kind == 0 ? (which < 4 ? "QUJD"[i & 3] : "4a"[i & 1]) : kind == 1 ? '$' : (i % 5 == 4 ? '$' : 'A' + (i % 6));
-        for (ig = 0; ig < 4; ig++) if (thorough || ig != 1) for (e = 0; e < 2; e++) for (ci = 0; ci < 4; ci++) dec_case(which, m, tl + 1 + (size_t) k, ig, caps[ci], e);
+        for (ig = 0; ig < NIGN; ig++) if (thorough || ig != 1) for (e = 0; e < 2; e++) for (ci = 0; ci < 4; ci++) dec_case(which, m, tl + 1 + (size_t) k, ig, caps[ci], e);
     }
 }
 static void do_roundtrip(long L)
